@@ -2,6 +2,7 @@ pub mod engine;
 pub mod models;
 pub mod probes;
 pub mod props;
+pub mod scene;
 
 #[global_allocator]
 static GLOBAL: engine::monitor::CountingAlloc = engine::monitor::CountingAlloc;
